@@ -1,7 +1,9 @@
 """C28 (partial) — the equivalence-class machinery of the type analysis: UnionFind::{find, union} (Verus, unbounded)
 and TypeInfo's `|=` (Kani, complete over all 2^16 flag combinations)."""
 import os
-from vlib import rustsrc, verus, native
+from vlib import rustsrc, verus, native, kani
+from vlib.kani import Harness
+from vlib.common import VERIF, BUILD, Undecided
 from vlib.common import REPO
 from vlib.verus import Raw, Copy, Fn, Clause, Unit
 
@@ -178,6 +180,40 @@ def build(rep):
     return u
 
 
+def gen_merge_crate(rep):
+    """the two fact-merge loops at the end of Types::collect_equal_types, cut out as a block (from the `let mut merged` line to the end
+    of the function) together with TypeInfo, its BitOrAssign and UnionFind, all verbatim, into a Kani crate"""
+    import shutil
+    src = rustsrc.Source(os.path.join(REPO, 'crates/core/src/types.rs'))
+    ti = src.find(r'\bpub\s+struct\s+TypeInfo\b')
+    bo = src.find(r'\bimpl\s+std::ops::BitOrAssign\s+for\s+TypeInfo\b')
+    us = src.find(r'\bpub\s+struct\s+UnionFind\b')
+    ui = src.find(r'\bimpl\s+UnionFind\b')
+    fn = src.fn('collect_equal_types')
+    body = src.text[fn.open:fn.close]
+    anchor = 'let mut merged: HashMap<TypeId, TypeInfo> = HashMap::new();'
+    if body.count(anchor) != 1:
+        raise rustsrc.LostAnchor('crates/core/src/types.rs: the fact-merge block of collect_equal_types no longer starts with `%s`' % anchor)
+    block = body[body.index(anchor):]
+
+    def t(it):
+        attrs = ''.join(l + '\n' for l in it.attrs.splitlines() if l.strip().startswith('#[derive'))
+        return attrs + it.src[it.hdr:it.close + 1]
+    tmpl = open(os.path.join(VERIF, 'kani/c28merge/lib.rs.in')).read()
+    out = tmpl.replace('//@TYPEINFO@', t(ti) + '\n' + t(bo)).replace('//@UNIONFIND@', t(us) + '\n' + t(ui)).replace('//@MERGE_BLOCK@', block)
+    d = os.path.join(BUILD, 'kani', 'c28merge')
+    os.makedirs(os.path.join(d, 'src'), exist_ok=True)
+    open(os.path.join(d, 'src/lib.rs'), 'w').write(out)
+    shutil.copy(os.path.join(VERIF, 'kani/c28merge/Cargo.toml'), os.path.join(d, 'Cargo.toml'))
+    import hashlib
+    rep.functions.append('crates/core/src/types.rs:%d fn `collect_equal_types`: the fact-merge block (%d lines from `let mut merged`, sha256/16=%s), '
+                         'verbatim, on a shim `Types` with the two fields it uses' % (fn.line, block.count('\n'), hashlib.sha256(block.encode()).hexdigest()[:16]))
+    rep.rewrites.append({'rule': 'block extraction: the statements of collect_equal_types from `let mut merged ...` to the end of the function are copied '
+                                 'unchanged into `Types::merge_block(&mut self)`; dropped: the structural-equality search loop above it, the other fields of Types; '
+                                 'std HashMap is replaced by a four-slot finite-map model (TRUSTED) defined in kani/c28merge/lib.rs.in; TypeId := usize'})
+    return d
+
+
 def run(rep, tier):
     rep.assume('rule 3: TypeId is replaced by usize (id_arena::Id compares by index inside one arena; the arena id is dropped)',
                'the derived Default for UnionFind yields an empty parent map (which satisfies wf)',
@@ -187,9 +223,24 @@ def run(rep, tier):
                'ingredients find/union/|= are under contract')
     rep.notes.append('C28 is claimed partially: a change to how the equality relation is closed, represented or merged is detected; a change to the structural-equality relation is not.')
     verus.canary(rep)
-    u = build(rep)
+    try:
+        u = build(rep)
+    except rustsrc.LostAnchor as e:
+        verus.unspliceable(rep, 'C28', 'UnionFind::union.merges_exactly_the_two_classes', 'UnionFind::{find,union} (crates/core/src/types.rs)', e)
+        return
     obs = u.run(tier)
     for o in obs:
         rep.add(o)
     native.search_on_failure(rep, 'C28', obs)
     verus.settle_lost_anchors(u, obs, rep)
+    # bounded stand-in for the merge loops (not counted as proved)
+    try:
+        d = gen_merge_crate(rep)
+    except rustsrc.LostAnchor as e:
+        rep.undecided('LostAnchor: %s' % e)
+        return
+    hs = [Harness('c28_merge_block_shares_union_of_facts', 'collect_equal_types.merge_block_shares_union_of_facts',
+                  'Types::collect_equal_types, fact-merge block (crates/core/src/types.rs)',
+                  bounded='three types, every well-formed union-find shape over them (incl. the uncompressed depth-2 chain), all 2^24 fact combinations; HashMap replaced by a finite-map model')]
+    kani.run_harnesses(rep, d, hs, None, 'kani-c28', timeout_each=1200, harness_file=os.path.join(d, 'src/lib.rs'),
+                       playback_features='values-only', guard=False)
